@@ -50,3 +50,35 @@ Definition C12_apply_run (i : C12_apply_in) : C12_apply_out :=
   let '(fs, base, calls) := i in
   let hits := map (fun rf : N * N => mkHit (fst rf) (snd rf) tt) base in
   map (C12_apply_one fs hits) calls.
+
+(* ---- stream `final`: every entry point, every retrieval path of ask.  The last step of
+   each entry point is the ACL stage, so a response must be a fixed point of the model's
+   last step: applying the model's ACL stage to the hits the implementation returned gives
+   the same hits with the same ranks (nothing denied is among them), and for ask the
+   citations (index, frame) and context fragments (rank, frame) are the ones derived from
+   exactly those hits.  One case = one request on one memory under every (context, mode).
+   cit_mode: 0 = search / vector / adaptive (no citations), 1 = ask context_only, 2 = ask. ---- *)
+Definition C12_final_call := (option C12_ctx * bool * N * list (N * N))%type.
+Definition C12_final_in := (list (N * list (str * str)) * list C12_final_call)%type.
+Definition C12_final_res := outcome (list (N * N) * list (N * N) * list (N * N)).
+Definition C12_final_out := list C12_final_res.
+Definition C12_final_one (fs : list (N * list (str * str))) (call : C12_final_call) : C12_final_res :=
+  let '(c, enforce, cit_mode, rhits) := call in
+  let hits := map (fun rf : N * N => mkHit (fst rf) (snd rf) tt) rhits in
+  let mode := if enforce then Enforce else Audit in
+  let view (hs : list (hit unit)) := map (fun h => (h_rank h, h_frame h)) hs in
+  if N.eqb cit_mode 0 then
+    match apply_acl json_string json_string_array unit (lookup_frame fs) hits (option_map mk_ctx c) mode with
+    | Ok (hs, _) => Ok (view hs, [], [])
+    | Err k => Err k
+    | Panic s => Panic s
+    end
+  else
+    match ask_acl json_string json_string_array unit (lookup_frame fs) nat (@List.length _)
+                  (Ok (hits, N.of_nat (List.length hits))) (N.eqb cit_mode 1) (option_map mk_ctx c) mode with
+    | Ok a => Ok (view (a_hits a), a_citations a, a_fragments a)
+    | Err k => Err k
+    | Panic s => Panic s
+    end.
+Definition C12_final_run (i : C12_final_in) : C12_final_out :=
+  let '(fs, calls) := i in map (C12_final_one fs) calls.
